@@ -103,9 +103,6 @@ fn coq_rb(r: &Rb) -> String {
 fn coq_rbs(v: &[Rb]) -> String {
     coq_list(v.iter(), coq_rb)
 }
-fn flag(b: bool) -> Rb {
-    Caught::Value(Ok(vec![b as u8]))
-}
 
 fn key_err(e: &KeyParsingError) -> u64 {
     match e {
@@ -125,12 +122,13 @@ fn pc_err(e: &postcard::Error) -> u64 {
         _ => 9,
     }
 }
-fn ca_str_err(e: &iroh_base::CustomAddrParseError) -> u64 {
-    use iroh_base::CustomAddrParseError as E;
-    match e {
-        E::MissingSeparator => 1,
-        E::InvalidId => 2,
-        E::InvalidData => 3,
+/// CustomAddrParseError is not exported by iroh-base; its variants are told apart by Display.
+fn ca_str_err(e: &impl std::fmt::Display) -> u64 {
+    match e.to_string().as_str() {
+        "missing '_' separator" => 1,
+        "invalid id" => 2,
+        "invalid data" => 3,
+        _ => 9,
     }
 }
 
@@ -767,7 +765,7 @@ fn generate(rng: &mut Rng, i: u64, _n: u64) -> String {
         4 => {
             let k = key_bytes(rng);
             let b = match rng.below(6) {
-                0 => rng.bytes(*rng.pick(&[0usize, 1, 31, 33, 64])),
+                0 => { let n = *rng.pick(&[0usize, 1, 31, 33, 64]); rng.bytes(n) }
                 _ => k,
             };
             format!("pkslice {}", h(&b))
@@ -776,7 +774,7 @@ fn generate(rng: &mut Rng, i: u64, _n: u64) -> String {
             let mut b = key_bytes(rng);
             match rng.below(6) {
                 0 => b.truncate(rng.below(32) as usize),
-                1 => b.extend(rng.bytes(rng.below(5) as usize)),
+                1 => { let n = rng.below(5) as usize; b.extend(rng.bytes(n)) }
                 _ => {}
             }
             format!("pkpc {}", h(&b))
@@ -794,11 +792,14 @@ fn generate(rng: &mut Rng, i: u64, _n: u64) -> String {
             format!("cabytes {}", Bytes::random(rng, n).raw())
         }
         14 => {
-            let a = CustomAddr::from_parts(rng.next_u64() >> rng.below(64), &rng.bytes(custom_len(rng).min(64)));
+            let sh = rng.below(64);
+            let n = custom_len(rng).min(64);
+            let id = rng.next_u64() >> sh;
+            let a = CustomAddr::from_parts(id, &rng.bytes(n));
             let pc = postcard::to_stdvec(&a).unwrap();
             let b = match rng.below(4) {
                 0 => pc,
-                1 => rng.bytes(rng.below(24) as usize),
+                1 => { let n = rng.below(24) as usize; rng.bytes(n) }
                 _ => mutate_bytes(rng, pc),
             };
             format!("capc {}", h(&b))
@@ -823,7 +824,7 @@ fn generate(rng: &mut Rng, i: u64, _n: u64) -> String {
             let b = eaddr_bytes(rng);
             let b = match rng.below(5) {
                 0 => b,
-                1 => rng.bytes(rng.range(0, 60) as usize),
+                1 => { let n = rng.range(0, 60) as usize; rng.bytes(n) }
                 _ => mutate_bytes(rng, b),
             };
             format!("eapc {}", h(&b))
